@@ -22,6 +22,19 @@ def generate(chk, module, parts, depth, extra=None, cfg="MC_Probe.cfg"):
     return cases
 
 
+def generate_gen(chk, n, size, base=None):
+    """n programs of the typed generator spec/MambaGen.tla (R1 invariant InsideSemantics is checked by the same TLC run)"""
+    if base is None:
+        base = (vlib.seed() % 20) * 10000 + (0 if size == 1 else 5000)
+    r = vlib.tlc("MambaGen", "MambaGen.cfg", constants={"N": n, "Base": base, "Size": size}, xss="1g")
+    chk.add_tlc(r)
+    cases = r.records
+    for i, c in enumerate(cases):
+        c["id"] = i
+        c["src"], c["lines"] = render.program(c["prog"])
+    return cases
+
+
 def verdict_of(run):
     if run.get("panic"):
         return "panic"
